@@ -737,8 +737,15 @@ impl CliOptions for GetOptsOptions {
             config.set_cli().print_misformatted_file_names(true);
         }
 
+        // `max_width` first: the other width options are clamped against the value it has when
+        // they are set, and the map has no order of its own.
+        if let Some(val) = self.inline_config.get("max_width") {
+            config.override_value("max_width", val);
+        }
         for (key, val) in self.inline_config {
-            config.override_value(&key, &val);
+            if key != "max_width" {
+                config.override_value(&key, &val);
+            }
         }
         // `--check` never writes, whatever `--config emit_mode=..` says.
         if self.check {
